@@ -55,7 +55,7 @@ def worker(args):
         out["contract"] = contract_data(c)
         out["kind"] = c.kind
         I = Interp(L, cs)
-        I.spec_builtins = {"fold", "implies", "old", "pre", "events", "same_object", "final", "byte_at", "forall", "maybe", "has_own", "pending_getters", "hexbytes", "is_xml", "md5", "sha256", "aes_ecb_enc", "aes_ecb_dec", "aes_cbc_enc", "aes_cbc_dec", "pkcs7", "xor_bytes"}
+        I.spec_builtins = {"fold", "implies", "old", "pre", "events", "same_object", "final", "byte_at", "forall", "maybe", "has_own", "pending_getters", "hexbytes", "conforms", "is_xml", "md5", "sha256", "aes_ecb_enc", "aes_ecb_dec", "aes_cbc_enc", "aes_cbc_dec", "pkcs7", "xor_bytes"}
         ex = Explorer()
         import signal
 
